@@ -20,7 +20,7 @@ pub fn generate(prop: &str, tier: &str, seed: u64) -> Vec<Vec<String>> {
         "C13" => spec::gen_c13(tier, seed),
         "C01" => flwgen::gen_c01(tier, seed),
         "C03" => conc::gen_c03(tier, seed),
-        "C20" => fmt::gen_c20(tier, seed),
+        "C20" => { let mut v = fmt::gen_c20(tier, seed); v.extend(robust::gen_c20_recursive(tier, seed)); v }
         "C14n" => names::gen_names_cases("C14", tier, seed),
         "C16n" => names::gen_names_cases("C16", tier, seed),
         "C10" => robust::gen_c10(tier, seed),
